@@ -13,6 +13,17 @@
  *                                 held by the driver when the process exits
  * Answer: "R ok sig=<hex> nt=<0|1> k=v ..." or "R FAIL <key> <detail>".
  *
+ * Refused allocations (A, T, Q, M histories; never P): with a small
+ * probability per operation the tracking allocator is armed so that the next
+ * (sometimes the second next; in init calls the 1st..3rd) allocation attempt
+ * the library makes is refused once.  An operation during which an attempt
+ * was refused must either return its failure value (-1 / NULL) and leave the
+ * container exactly as the model had it before the call - the model is then
+ * NOT advanced and the history continues - or, for the calls that cannot
+ * report failure (shrink, queue/map delete), take full effect (the refused
+ * shrinking realloc is the documented exception to the factor-4 rule; the
+ * exception lasts until the next call that changes the array).
+ *
  * argv[1] (optional): file to which the LAST atexit handler appends
  * "EXIT live=<n> expected=<m> bad=<k>": n = tracked blocks still allocated
  * after every other atexit handler (mpool's included) ran, m = pool objects
@@ -72,6 +83,58 @@ xexact(const uint8_t * src, size_t n, void ** tofree)
 	return (b);
 }
 
+/* ------------------------------------------------------------------ */
+/* Refused allocations                                                */
+/* ------------------------------------------------------------------ */
+static uint64_t inj_nf0;
+static uint64_t ic_armed, ic_refused, ic_failed, ic_absorbed, ic_initfail;
+
+static void
+inj_reset(void)
+{
+
+	ic_armed = ic_refused = ic_failed = ic_absorbed = ic_initfail = 0;
+}
+
+/*
+ * With probability per1000/1000 arm the failpoint for the library call that
+ * follows: ordinary calls: the next attempt (3 of 4) or the one after it;
+ * init calls (initk > 0): attempt 1..initk.  Always draws the same number of
+ * random values.
+ */
+static void
+inj_arm(struct vh_rng * R, unsigned per1000, unsigned initk)
+{
+	uint64_t x = vh_below(R, 1000), y = vh_below(R, 12), k;
+
+	inj_nf0 = wa_nfailed();
+	if (x >= per1000)
+		return;
+	k = initk ? 1 + y % initk : ((y < 9) ? 1 : 2);
+	wa_enable(1);
+	wa_fail_at(wa_count() + k, 0);
+	ic_armed++;
+}
+
+/* Disarm; was an allocation attempt refused since inj_arm? */
+static int
+inj_done(void)
+{
+
+	wa_fail_at(0, 0);
+	wa_enable(0);
+	if (wa_nfailed() != inj_nf0) {
+		ic_refused++;
+		return (1);
+	}
+	return (0);
+}
+
+#define P_ARRAY	60	/* per 1000 operations */
+#define P_QUEUE	100
+#define P_MAP	100
+#define P_INIT	300
+
 static const size_t reclens[] = { 1, 1, 2, 3, 4, 5, 7, 8, 12, 16, 24, 33, 64,
     100, 255 };
 #define NRECLENS (sizeof(reclens) / sizeof(reclens[0]))
@@ -113,9 +176,11 @@ blk_cb(void * p, size_t n, void * c)
  * what the public get call returned for record 0 (only asked for when the
  * array is not empty); len = model length in bytes.
  * Checked inequality: len <= cap <= 4*len + 3; after truncate cap == len.
+ * excused: a shrink whose realloc was refused is the last thing that changed
+ * the array (documented exception): only len <= cap is required.
  */
 static size_t
-cap_check(uint64_t seq0, const void * base, size_t len, int trunc)
+cap_check(uint64_t seq0, const void * base, size_t len, int trunc, int excused)
 {
 	struct blocks B;
 	size_t cap = 0;
@@ -140,7 +205,7 @@ cap_check(uint64_t seq0, const void * base, size_t len, int trunc)
 		else if (cap < len)
 			fail("array-cap", "contents %zu bytes > allocation %zu",
 			    len, cap);
-		else if (cap > 4 * len + 3)
+		else if (cap > 4 * len + 3 && !excused)
 			fail("array-cap", "allocation %zu for %zu bytes of "
 			    "contents: beyond a factor 4 (cap/4 > size)", cap, len);
 		else if (trunc && cap != len)
@@ -152,7 +217,7 @@ cap_check(uint64_t seq0, const void * base, size_t len, int trunc)
 		if (trunc)
 			fail("array-truncate", "empty array keeps %zu bytes "
 			    "after truncate", cap);
-		else if (cap > 3)
+		else if (cap > 3 && !excused)
 			fail("array-cap", "allocation %zu for an empty array: "
 			    "beyond a factor 4 (cap/4 > size)", cap);
 	}
@@ -169,6 +234,7 @@ struct arr {
 	size_t len, mcap;
 	uint64_t seq0;
 	size_t lastcap;
+	int excused;		/* refused shrink-realloc not yet superseded */
 };
 
 static void
@@ -205,7 +271,7 @@ arr_check(struct arr * A, int trunc, struct vh_rng * R)
 	}
 	if (A->len > 0)
 		base = elasticarray_get(A->EA, 0, 1);
-	A->lastcap = cap_check(A->seq0, base, A->len, trunc);
+	A->lastcap = cap_check(A->seq0, base, A->len, trunc, A->excused);
 	if (failed)
 		return;
 	for (i = 0; i < A->len; i++)
@@ -222,13 +288,31 @@ arr_new(struct arr * A, struct vh_rng * R, size_t maxb)
 	size_t r = pick_reclen(R);
 	size_t nrec = vh_chance(R, 1, 3) ? 0 : vh_below(R, maxb / r / 4 + 2);
 
-	snprintf(opdesc, sizeof(opdesc), "init(%zu,%zu)", nrec, r);
-	A->seq0 = wa_total_allocs();
-	A->EA = elasticarray_init(nrec, r);
+	int refused, try;
+	size_t lv;
+
 	A->len = 0;
-	if (A->EA == NULL) {
-		fail("array-init", "init returned NULL");
-		return;
+	A->excused = 0;
+	for (try = 0; ; try++) {
+		snprintf(opdesc, sizeof(opdesc), "init(%zu,%zu)%s", nrec, r,
+		    try ? " [again]" : "");
+		A->seq0 = wa_total_allocs();
+		lv = wa_live_count();
+		inj_arm(R, try ? 0 : P_INIT, 2);
+		A->EA = elasticarray_init(nrec, r);
+		refused = inj_done();
+		if (A->EA != NULL)
+			break;
+		if (!refused) {
+			fail("array-init", "init returned NULL");
+			return;
+		}
+		if (wa_live_count() != lv) {
+			fail("array-oom", "init failed for lack of memory and "
+			    "left %zu blocks behind", wa_live_count() - lv);
+			return;
+		}
+		ic_initfail++;
 	}
 	am_setlen(A, nrec * r);
 }
@@ -297,6 +381,23 @@ pick_target(struct vh_rng * R, size_t len, size_t cap, size_t maxb)
 	return (t);
 }
 
+/*
+ * A call returned non-zero while an allocation was refused: it must be the
+ * documented failure report.  (That nothing changed is what the comparison
+ * with the not-advanced model after the call decides.)
+ */
+static int
+array_oomfail(int rc, int err)
+{
+
+	if (rc != -1)
+		fail("array-oom", "allocation refused: returned %d, not -1", rc);
+	else if (err != ENOMEM)
+		fail("array-oom", "allocation refused: -1 with errno %d, not "
+		    "ENOMEM", err);
+	return (!failed);
+}
+
 static void
 hist_array(uint64_t seed, size_t nops, size_t maxb)
 {
@@ -305,20 +406,21 @@ hist_array(uint64_t seed, size_t nops, size_t maxb)
 	uint64_t sig = 0;
 	uint64_t c_grow = 0, c_shrink = 0, c_keep = 0, c_ovf = 0, c_trunc = 0,
 	    c_export = 0, c_dup = 0, c_rw = 0, c_unspec = 0, c_huge = 0,
-	    c_tiny = 0, c_cap_at_bound = 0;
+	    c_tiny = 0, c_cap_at_bound = 0, c_excused = 0;
 	size_t live0 = wa_live_count();
 	size_t i;
 	void * tf;
 
 	vh_seed(&R, seed, 12);
 	memset(&A, 0, sizeof(A));
+	inj_reset();
 	opidx = 0;
 	arr_new(&A, &R, maxb);
 	arr_check(&A, 0, &R);
 	for (opidx = 1; opidx <= nops && !failed; opidx++) {
 		unsigned op = (unsigned)vh_below(&R, 100);
 		size_t capb = A.lastcap, lenb = A.len;
-		int trunc = 0;
+		int trunc = 0, refused = 0, oomfail = 0, rc;
 
 		if (op < 24) {
 			/* append */
@@ -343,12 +445,19 @@ hist_array(uint64_t seed, size_t nops, size_t maxb)
 			snprintf(opdesc, sizeof(opdesc), "append(%zu,%zu) at size %zu cap %zu",
 			    nrec, r, lenb, capb);
 			sig = vh_fnv_u64(sig, (1ULL << 56) ^ (nrec << 16) ^ r);
-			if (elasticarray_append(A.EA, sx, nrec, r) != 0)
+			inj_arm(&R, P_ARRAY, 0);
+			errno = 0;
+			rc = elasticarray_append(A.EA, sx, nrec, r);
+			refused = inj_done();
+			if (rc != 0 && !refused)
 				fail("array-append", "append failed");
+			else if (rc != 0)
+				oomfail = array_oomfail(rc, errno);
 			else {
 				am_setlen(&A, lenb + bytes);
 				memcpy(A.mb + lenb, src, bytes);
 				memset(A.mk + lenb, 1, bytes);
+				A.excused = 0;
 			}
 			vh_free(tf);
 			vh_free(src);
@@ -361,12 +470,19 @@ hist_array(uint64_t seed, size_t nops, size_t maxb)
 			snprintf(opdesc, sizeof(opdesc), "resize(%zu,%zu) at size %zu cap %zu",
 			    nrec, r, lenb, capb);
 			sig = vh_fnv_u64(sig, (2ULL << 56) ^ (nrec << 16) ^ r);
-			if (elasticarray_resize(A.EA, nrec, r) != 0)
+			inj_arm(&R, P_ARRAY, 0);
+			errno = 0;
+			rc = elasticarray_resize(A.EA, nrec, r);
+			refused = inj_done();
+			if (rc != 0 && !refused)
 				fail("array-resize", "resize failed");
+			else if (rc != 0)
+				oomfail = array_oomfail(rc, errno);
 			else {
 				if (nrec * r > lenb)
 					c_unspec++;
 				am_setlen(&A, nrec * r);
+				A.excused = 0;
 			}
 		} else if (op < 56) {
 			/* shrink */
@@ -387,18 +503,35 @@ hist_array(uint64_t seed, size_t nops, size_t maxb)
 			snprintf(opdesc, sizeof(opdesc), "shrink(%zu,%zu) at size %zu cap %zu",
 			    nrec, r, lenb, capb);
 			sig = vh_fnv_u64(sig, (3ULL << 56) ^ (nrec << 16) ^ r);
+			inj_arm(&R, P_ARRAY, 0);
 			elasticarray_shrink(A.EA, nrec, r);
+			refused = inj_done();
+			/* Cannot fail: takes effect; refused realloc = exception. */
 			if (nrec > SIZE_MAX / r || nrec * r > lenb)
 				am_setlen(&A, 0);
 			else
 				am_setlen(&A, lenb - nrec * r);
+			A.excused = refused;
+			if (refused) {
+				ic_absorbed++;
+				sig = vh_fnv_u64(sig, 12ULL << 56);
+			}
 		} else if (op < 62) {
 			snprintf(opdesc, sizeof(opdesc), "truncate at size %zu cap %zu",
 			    lenb, capb);
 			sig = vh_fnv_u64(sig, 4ULL << 56);
-			if (elasticarray_truncate(A.EA) != 0)
+			inj_arm(&R, P_ARRAY, 0);
+			errno = 0;
+			rc = elasticarray_truncate(A.EA);
+			refused = inj_done();
+			if (rc != 0 && !refused)
 				fail("array-truncate", "truncate failed");
-			trunc = 1;
+			else if (rc != 0)
+				oomfail = array_oomfail(rc, errno);
+			else {
+				trunc = 1;
+				A.excused = 0;
+			}
 			c_trunc++;
 		} else if (op < 78) {
 			/* read and write one record through the pointer */
@@ -440,8 +573,14 @@ hist_array(uint64_t seed, size_t nops, size_t maxb)
 			snprintf(opdesc, sizeof(opdesc), "exportdup(%zu) at size %zu",
 			    r, lenb);
 			sig = vh_fnv_u64(sig, (6ULL << 56) ^ r);
-			if (elasticarray_exportdup(A.EA, &buf, &nrec, r) != 0)
+			inj_arm(&R, P_ARRAY, 0);
+			errno = 0;
+			rc = elasticarray_exportdup(A.EA, &buf, &nrec, r);
+			refused = inj_done();
+			if (rc != 0 && !refused)
 				fail("array-export", "exportdup failed");
+			else if (rc != 0)
+				oomfail = array_oomfail(rc, errno);
 			else {
 				export_check(&A, "exportdup", buf, nrec, r);
 				if (!failed)
@@ -510,9 +649,17 @@ hist_array(uint64_t seed, size_t nops, size_t maxb)
 
 			snprintf(opdesc, sizeof(opdesc), "export(%zu) at size %zu", r, lenb);
 			sig = vh_fnv_u64(sig, (9ULL << 56) ^ r);
-			if (elasticarray_export(A.EA, &buf, &nrec, r) != 0)
+			inj_arm(&R, P_ARRAY, 0);
+			errno = 0;
+			rc = elasticarray_export(A.EA, &buf, &nrec, r);
+			refused = inj_done();
+			if (rc != 0 && !refused)
 				fail("array-export", "export failed");
-			else {
+			else if (rc != 0) {
+				/* The array must still be there, unchanged. */
+				oomfail = array_oomfail(rc, errno);
+				goto checked;
+			} else {
 				export_check(&A, "export", buf, nrec, r);
 				if (!failed)
 					free(buf);
@@ -541,7 +688,14 @@ checked:
 		arr_check(&A, trunc, &R);
 		if (failed)
 			break;
-		if (op < 62 && !trunc) {
+		if (oomfail) {
+			/* Refused, reported, and nothing changed. */
+			ic_failed++;
+			sig = vh_fnv_u64(sig, 11ULL << 56);
+		}
+		if (A.excused)
+			c_excused++;
+		if (op < 62 && !trunc && !oomfail) {
 			if (A.lastcap > capb)
 				c_grow++;
 			else if (A.lastcap < capb)
@@ -568,7 +722,10 @@ checked:
 	printf("R ok sig=%016llx nt=%d arr_ops=%zu arr_grow=%llu arr_shrink_realloc=%llu "
 	    "arr_cap_kept=%llu arr_overflow_refused=%llu arr_truncate=%llu "
 	    "arr_export=%llu arr_exportdup=%llu arr_rw=%llu arr_grow_unspecified=%llu "
-	    "arr_unallocatable=%llu arr_tiny_sizes=%llu arr_cap_ge_4x=%llu\n",
+	    "arr_unallocatable=%llu arr_tiny_sizes=%llu arr_cap_ge_4x=%llu "
+	    "arr_alloc_refused=%llu arr_oom_failed_unchanged=%llu "
+	    "arr_oom_shrink_took_effect=%llu arr_oom_init_null_no_leak=%llu "
+	    "arr_checks_under_shrink_exception=%llu\n",
 	    (unsigned long long)sig,
 	    (c_grow >= 1 && c_shrink >= 1 && c_ovf >= 1), nops,
 	    (unsigned long long)c_grow, (unsigned long long)c_shrink,
@@ -576,7 +733,10 @@ checked:
 	    (unsigned long long)c_trunc, (unsigned long long)c_export,
 	    (unsigned long long)c_dup, (unsigned long long)c_rw,
 	    (unsigned long long)c_unspec, (unsigned long long)c_huge,
-	    (unsigned long long)c_tiny, (unsigned long long)c_cap_at_bound);
+	    (unsigned long long)c_tiny, (unsigned long long)c_cap_at_bound,
+	    (unsigned long long)ic_refused, (unsigned long long)ic_failed,
+	    (unsigned long long)ic_absorbed, (unsigned long long)ic_initfail,
+	    (unsigned long long)c_excused);
 }
 
 /* ================================================================== */
@@ -607,6 +767,7 @@ struct tarr {
 	size_t n, mcap;
 	uint64_t seq0;
 	size_t lastcap;
+	int excused;
 };
 
 static void
@@ -655,7 +816,8 @@ tarr_check(struct tarr * T, int trunc)
 	}
 	if (T->n > 0)
 		base = trecs_get(T->EA, 0);
-	T->lastcap = cap_check(T->seq0, base, T->n * sizeof(struct trec), trunc);
+	T->lastcap = cap_check(T->seq0, base, T->n * sizeof(struct trec), trunc,
+	    T->excused);
 	for (i = 0; i < T->n && !failed; i++)
 		if (T->k[i] && !teq(trecs_get(T->EA, i), &T->m[i]))
 			fail("typed-content", "record %zu of %zu differs from "
@@ -668,13 +830,31 @@ tarr_new(struct tarr * T, struct vh_rng * R, size_t maxr)
 {
 	size_t n = vh_chance(R, 1, 3) ? 0 : vh_below(R, maxr / 4 + 2);
 
-	snprintf(opdesc, sizeof(opdesc), "trecs_init(%zu)", n);
-	T->seq0 = wa_total_allocs();
-	T->EA = trecs_init(n);
+	int refused, try;
+	size_t lv;
+
 	T->n = 0;
-	if (T->EA == NULL) {
-		fail("typed-init", "init returned NULL");
-		return;
+	T->excused = 0;
+	for (try = 0; ; try++) {
+		snprintf(opdesc, sizeof(opdesc), "trecs_init(%zu)%s", n,
+		    try ? " [again]" : "");
+		T->seq0 = wa_total_allocs();
+		lv = wa_live_count();
+		inj_arm(R, try ? 0 : P_INIT, 2);
+		T->EA = trecs_init(n);
+		refused = inj_done();
+		if (T->EA != NULL)
+			break;
+		if (!refused) {
+			fail("typed-init", "init returned NULL");
+			return;
+		}
+		if (wa_live_count() != lv) {
+			fail("typed-oom", "init failed for lack of memory and "
+			    "left %zu blocks behind", wa_live_count() - lv);
+			return;
+		}
+		ic_initfail++;
 	}
 	tm_setn(T, n);
 }
@@ -705,6 +885,18 @@ texport_check(struct tarr * T, const char * what, struct trec * buf, size_t n)
 		}
 }
 
+static int
+typed_oomfail(int rc, int err)
+{
+
+	if (rc != -1)
+		fail("typed-oom", "allocation refused: returned %d, not -1", rc);
+	else if (err != ENOMEM)
+		fail("typed-oom", "allocation refused: -1 with errno %d, not "
+		    "ENOMEM", err);
+	return (!failed);
+}
+
 static void
 hist_typed(uint64_t seed, size_t nops, size_t maxr)
 {
@@ -717,13 +909,14 @@ hist_typed(uint64_t seed, size_t nops, size_t maxr)
 
 	vh_seed(&R, seed, 13);
 	memset(&T, 0, sizeof(T));
+	inj_reset();
 	opidx = 0;
 	tarr_new(&T, &R, maxr);
 	tarr_check(&T, 0);
 	for (opidx = 1; opidx <= nops && !failed; opidx++) {
 		unsigned op = (unsigned)vh_below(&R, 100);
 		size_t capb = T.lastcap, nb = T.n;
-		int trunc = 0;
+		int trunc = 0, refused = 0, oomfail = 0, rc;
 
 		if (op < 28) {
 			size_t n = vh_chance(&R, 1, 2) ? vh_below(&R, 4) :
@@ -741,14 +934,21 @@ hist_typed(uint64_t seed, size_t nops, size_t maxr)
 				sx = src;	/* keep the pointer aligned */
 			snprintf(opdesc, sizeof(opdesc), "trecs_append(%zu) at %zu", n, nb);
 			sig = vh_fnv_u64(sig, (1ULL << 56) ^ n);
-			if (trecs_append(T.EA, sx, n) != 0)
+			inj_arm(&R, P_ARRAY, 0);
+			errno = 0;
+			rc = trecs_append(T.EA, sx, n);
+			refused = inj_done();
+			if (rc != 0 && !refused)
 				fail("typed-append", "append failed");
+			else if (rc != 0)
+				oomfail = typed_oomfail(rc, errno);
 			else {
 				tm_setn(&T, nb + n);
 				for (i = 0; i < n; i++) {
 					T.m[nb + i] = src[i];
 					T.k[nb + i] = 1;
 				}
+				T.excused = 0;
 			}
 			vh_free(tf);
 			vh_free(src);
@@ -757,10 +957,18 @@ hist_typed(uint64_t seed, size_t nops, size_t maxr)
 
 			snprintf(opdesc, sizeof(opdesc), "trecs_resize(%zu) at %zu", t, nb);
 			sig = vh_fnv_u64(sig, (2ULL << 56) ^ t);
-			if (trecs_resize(T.EA, t) != 0)
+			inj_arm(&R, P_ARRAY, 0);
+			errno = 0;
+			rc = trecs_resize(T.EA, t);
+			refused = inj_done();
+			if (rc != 0 && !refused)
 				fail("typed-resize", "resize failed");
-			else
+			else if (rc != 0)
+				oomfail = typed_oomfail(rc, errno);
+			else {
 				tm_setn(&T, t);
+				T.excused = 0;
+			}
 		} else if (op < 56) {
 			size_t t = pick_target(&R, nb * 12, capb, maxr * 12) / 12;
 			size_t n = (t < nb) ? nb - t : vh_below(&R, 3);
@@ -769,14 +977,30 @@ hist_typed(uint64_t seed, size_t nops, size_t maxr)
 				n = nb + vh_below(&R, 5);
 			snprintf(opdesc, sizeof(opdesc), "trecs_shrink(%zu) at %zu", n, nb);
 			sig = vh_fnv_u64(sig, (3ULL << 56) ^ n);
+			inj_arm(&R, P_ARRAY, 0);
 			trecs_shrink(T.EA, n);
+			refused = inj_done();
 			tm_setn(&T, (n > nb) ? 0 : nb - n);
+			T.excused = refused;
+			if (refused) {
+				ic_absorbed++;
+				sig = vh_fnv_u64(sig, 12ULL << 56);
+			}
 		} else if (op < 62) {
 			snprintf(opdesc, sizeof(opdesc), "trecs_truncate at %zu", nb);
 			sig = vh_fnv_u64(sig, 4ULL << 56);
-			if (trecs_truncate(T.EA) != 0)
+			inj_arm(&R, P_ARRAY, 0);
+			errno = 0;
+			rc = trecs_truncate(T.EA);
+			refused = inj_done();
+			if (rc != 0 && !refused)
 				fail("typed-truncate", "truncate failed");
-			trunc = 1;
+			else if (rc != 0)
+				oomfail = typed_oomfail(rc, errno);
+			else {
+				trunc = 1;
+				T.excused = 0;
+			}
 		} else if (op < 78) {
 			size_t pos;
 			struct trec * p;
@@ -810,8 +1034,14 @@ hist_typed(uint64_t seed, size_t nops, size_t maxr)
 
 			snprintf(opdesc, sizeof(opdesc), "trecs_exportdup at %zu", nb);
 			sig = vh_fnv_u64(sig, 7ULL << 56);
-			if (trecs_exportdup(T.EA, &buf, &n) != 0)
+			inj_arm(&R, P_ARRAY, 0);
+			errno = 0;
+			rc = trecs_exportdup(T.EA, &buf, &n);
+			refused = inj_done();
+			if (rc != 0 && !refused)
 				fail("typed-export", "exportdup failed");
+			else if (rc != 0)
+				oomfail = typed_oomfail(rc, errno);
 			else {
 				texport_check(&T, "exportdup", buf, n);
 				if (!failed)
@@ -836,9 +1066,16 @@ hist_typed(uint64_t seed, size_t nops, size_t maxr)
 
 			snprintf(opdesc, sizeof(opdesc), "trecs_export at %zu", nb);
 			sig = vh_fnv_u64(sig, 9ULL << 56);
-			if (trecs_export(T.EA, &buf, &n) != 0)
+			inj_arm(&R, P_ARRAY, 0);
+			errno = 0;
+			rc = trecs_export(T.EA, &buf, &n);
+			refused = inj_done();
+			if (rc != 0 && !refused)
 				fail("typed-export", "export failed");
-			else {
+			else if (rc != 0) {
+				oomfail = typed_oomfail(rc, errno);
+				goto tchecked;
+			} else {
 				texport_check(&T, "export", buf, n);
 				if (!failed)
 					free(buf);
@@ -863,7 +1100,11 @@ hist_typed(uint64_t seed, size_t nops, size_t maxr)
 		}
 tchecked:
 		tarr_check(&T, trunc);
-		if (!failed && op < 62 && !trunc) {
+		if (!failed && oomfail) {
+			ic_failed++;
+			sig = vh_fnv_u64(sig, 11ULL << 56);
+		}
+		if (!failed && op < 62 && !trunc && !oomfail) {
 			if (T.lastcap > capb)
 				c_grow++;
 			else if (T.lastcap < capb)
@@ -881,10 +1122,14 @@ tchecked:
 	if (failed)
 		return;
 	printf("R ok sig=%016llx nt=%d typed_ops=%zu typed_grow=%llu "
-	    "typed_shrink_realloc=%llu typed_iter=%llu typed_export=%llu\n",
+	    "typed_shrink_realloc=%llu typed_iter=%llu typed_export=%llu "
+	    "typed_alloc_refused=%llu typed_oom_failed_unchanged=%llu "
+	    "typed_oom_shrink_took_effect=%llu typed_oom_init_null_no_leak=%llu\n",
 	    (unsigned long long)sig, (c_grow >= 1 && c_shrink >= 1), nops,
 	    (unsigned long long)c_grow, (unsigned long long)c_shrink,
-	    (unsigned long long)c_iter, (unsigned long long)c_export);
+	    (unsigned long long)c_iter, (unsigned long long)c_export,
+	    (unsigned long long)ic_refused, (unsigned long long)ic_failed,
+	    (unsigned long long)ic_absorbed, (unsigned long long)ic_initfail);
 }
 
 /* ================================================================== */
@@ -904,18 +1149,35 @@ hist_queue(uint64_t seed, size_t nops, size_t reclen)
 	unsigned padd = 50, phase_left = 0;
 	uint8_t * rec = vh_xmalloc(reclen);
 	void * tf;
+	int refused, try, rc;
 
 	vh_seed(&R, seed, 14);
+	inj_reset();
 	opidx = 0;
-	snprintf(opdesc, sizeof(opdesc), "init(%zu)", reclen);
-	if ((EQ = elasticqueue_init(reclen)) == NULL) {
-		fail("queue-init", "init returned NULL");
-		goto out;
+	for (try = 0; ; try++) {
+		snprintf(opdesc, sizeof(opdesc), "init(%zu)%s", reclen,
+		    try ? " [again]" : "");
+		inj_arm(&R, try ? 0 : P_INIT, 2);
+		EQ = elasticqueue_init(reclen);
+		refused = inj_done();
+		if (EQ != NULL)
+			break;
+		if (!refused) {
+			fail("queue-init", "init returned NULL");
+			goto out;
+		}
+		if (wa_live_count() != live0) {
+			fail("queue-oom", "init failed for lack of memory and "
+			    "left %zu blocks behind", wa_live_count() - live0);
+			goto out;
+		}
+		ic_initfail++;
 	}
 	for (opidx = 1; opidx <= nops && !failed; opidx++) {
 		size_t len = tail - head;
 		unsigned op;
 		void * p1 = NULL, * p0;
+		int oomfail = 0;
 
 		if (phase_left == 0) {
 			static const unsigned pa[] = { 15, 30, 45, 50, 55, 70, 90 };
@@ -951,22 +1213,45 @@ hist_queue(uint64_t seed, size_t nops, size_t reclen)
 				rec[i] = (uint8_t)vh_u64(&R);
 			rx = xexact(rec, reclen, &tf);
 			snprintf(opdesc, sizeof(opdesc), "add, len %zu", len);
-			if (elasticqueue_add(EQ, rx) != 0)
-				fail("queue-add", "add failed");
+			inj_arm(&R, P_QUEUE, 0);
+			errno = 0;
+			rc = elasticqueue_add(EQ, rx);
+			refused = inj_done();
 			vh_free(tf);
-			if (tail == mcap) {
-				mcap = mcap * 2 + 64;
-				m = xrealloc(m, mcap * reclen);
+			if (rc != 0 && !refused)
+				fail("queue-add", "add failed");
+			else if (rc != 0) {
+				/* Reported; the queue must be as it was. */
+				if (rc != -1)
+					fail("queue-oom", "allocation refused: "
+					    "returned %d, not -1", rc);
+				else if (errno != ENOMEM)
+					fail("queue-oom", "allocation refused: "
+					    "-1 with errno %d, not ENOMEM", errno);
+				oomfail = 1;
+				sig = vh_fnv_u64(sig, 11ULL << 56);
+			} else {
+				if (tail == mcap) {
+					mcap = mcap * 2 + 64;
+					m = xrealloc(m, mcap * reclen);
+				}
+				memcpy(m + tail * reclen, rec, reclen);
+				tail++;
+				sig = vh_fnv_u64(sig, 1ULL << 56);
+				c_add++;
 			}
-			memcpy(m + tail * reclen, rec, reclen);
-			tail++;
-			sig = vh_fnv_u64(sig, 1ULL << 56);
-			c_add++;
 		} else {
 			snprintf(opdesc, sizeof(opdesc), "delete, len %zu", len);
 			if (len >= 2)
 				p1 = elasticqueue_get(EQ, 1);
+			inj_arm(&R, P_QUEUE, 0);
 			elasticqueue_delete(EQ);
+			refused = inj_done();
+			/* Cannot fail: takes effect whatever realloc said. */
+			if (refused) {
+				ic_absorbed++;
+				sig = vh_fnv_u64(sig, 12ULL << 56);
+			}
 			if (len > 0)
 				head++;
 			else
@@ -1013,6 +1298,8 @@ qcheck:
 			break;
 		}
 		c_oob += 3;
+		if (oomfail)
+			ic_failed++;
 	}
 	if (!failed) {
 		snprintf(opdesc, sizeof(opdesc), "free");
@@ -1028,11 +1315,15 @@ out:
 		return;
 	printf("R ok sig=%016llx nt=%d q_ops=%zu q_add=%llu q_delete=%llu "
 	    "q_move_to_front_seen=%llu q_delete_on_empty=%llu q_beyond_end=%llu "
-	    "q_write=%llu q_maxlen=%zu\n",
+	    "q_write=%llu q_maxlen=%zu q_alloc_refused=%llu "
+	    "q_oom_failed_unchanged=%llu q_oom_delete_took_effect=%llu "
+	    "q_oom_init_null_no_leak=%llu\n",
 	    (unsigned long long)(sig ^ reclen), (c_moved >= 2), nops,
 	    (unsigned long long)c_add, (unsigned long long)c_del,
 	    (unsigned long long)c_moved, (unsigned long long)c_delempty,
-	    (unsigned long long)c_oob, (unsigned long long)c_wr, maxlen);
+	    (unsigned long long)c_oob, (unsigned long long)c_wr, maxlen,
+	    (unsigned long long)ic_refused, (unsigned long long)ic_failed,
+	    (unsigned long long)ic_absorbed, (unsigned long long)ic_initfail);
 }
 
 /* ================================================================== */
@@ -1052,16 +1343,32 @@ hist_map(uint64_t seed, size_t nops, unsigned style)
 	    c_delunk = 0, c_multitrim = 0, c_getchk = 0;
 	size_t live0 = wa_live_count();
 	unsigned padd = 50, phase_left = 0;
+	int refused, try;
 
 	vh_seed(&R, seed, 15);
+	inj_reset();
 	opidx = 0;
-	snprintf(opdesc, sizeof(opdesc), "init");
-	if ((M = seqptrmap_init()) == NULL) {
-		fail("map-init", "init returned NULL");
-		return;
+	for (try = 0; ; try++) {
+		snprintf(opdesc, sizeof(opdesc), "init%s", try ? " [again]" : "");
+		inj_arm(&R, try ? 0 : P_INIT, 3);
+		M = seqptrmap_init();
+		refused = inj_done();
+		if (M != NULL)
+			break;
+		if (!refused) {
+			fail("map-init", "init returned NULL");
+			return;
+		}
+		if (wa_live_count() != live0) {
+			fail("map-oom", "init failed for lack of memory and "
+			    "left %zu blocks behind", wa_live_count() - live0);
+			return;
+		}
+		ic_initfail++;
 	}
 	for (opidx = 1; opidx <= nops && !failed; opidx++) {
 		int64_t minb = (nlive > 0) ? lo : -1, mina, got, from;
+		int oomfail = 0;
 
 		if (phase_left == 0) {
 			static const unsigned pa[] = { 20, 40, 50, 60, 85 };
@@ -1075,20 +1382,33 @@ hist_map(uint64_t seed, size_t nops, unsigned style)
 
 			snprintf(opdesc, sizeof(opdesc), "add -> expect %lld",
 			    (long long)next);
+			inj_arm(&R, P_MAP, 0);
 			got = seqptrmap_add(M, ptr);
-			if (got != next) {
-				fail("map-add", "number %lld issued, expected %lld",
-				    (long long)got, (long long)next);
+			refused = inj_done();
+			if (refused && got == -1) {
+				/*
+				 * Reported; the map must be unmodified: the
+				 * model is not advanced, the same number is
+				 * expected from the next add.
+				 */
+				oomfail = 1;
+				sig = vh_fnv_u64(sig, 11ULL << 56);
+			} else if (got != next) {
+				fail("map-add", "number %lld issued, expected %lld%s",
+				    (long long)got, (long long)next, refused ?
+				    " (an allocation was refused: -1 or, if "
+				    "absorbed, the next number)" : "");
 				break;
+			} else {
+				if ((size_t)next == mcap) {
+					mcap = mcap * 2 + 64;
+					mp = xrealloc(mp, mcap * sizeof(void *));
+				}
+				mp[next++] = ptr;
+				nlive++;
+				sig = vh_fnv_u64(sig, 1ULL << 56);
+				c_add++;
 			}
-			if ((size_t)next == mcap) {
-				mcap = mcap * 2 + 64;
-				mp = xrealloc(mp, mcap * sizeof(void *));
-			}
-			mp[next++] = ptr;
-			nlive++;
-			sig = vh_fnv_u64(sig, 1ULL << 56);
-			c_add++;
 		} else {
 			/* delete; which number depends on the style */
 			unsigned k = (unsigned)vh_below(&R, 100);
@@ -1118,7 +1438,14 @@ hist_map(uint64_t seed, size_t nops, unsigned style)
 			}
 			snprintf(opdesc, sizeof(opdesc), "delete(%lld) min %lld next %lld",
 			    (long long)d, (long long)minb, (long long)next);
+			inj_arm(&R, P_MAP, 0);
 			seqptrmap_delete(M, d);
+			refused = inj_done();
+			/* Cannot fail: takes effect whatever realloc said. */
+			if (refused) {
+				ic_absorbed++;
+				sig = vh_fnv_u64(sig, 12ULL << 56);
+			}
 			if (d >= 0 && d < next && mp[d] != NULL) {
 				if (d == lo)
 					c_delmin++;
@@ -1173,6 +1500,8 @@ hist_map(uint64_t seed, size_t nops, unsigned style)
 				    (long long)q, (long long)mina, (long long)next);
 		}
 		c_getchk += 6;
+		if (oomfail && !failed)
+			ic_failed++;
 	}
 	if (!failed) {
 		snprintf(opdesc, sizeof(opdesc), "free");
@@ -1187,13 +1516,16 @@ hist_map(uint64_t seed, size_t nops, unsigned style)
 	printf("R ok sig=%016llx nt=%d map_ops=%zu map_add=%llu map_delete_min=%llu "
 	    "map_delete_interior=%llu map_delete_already_deleted=%llu "
 	    "map_delete_unknown=%llu map_multi_trim=%llu map_get_checked=%llu "
-	    "map_maxlive=%zu\n",
+	    "map_maxlive=%zu map_alloc_refused=%llu map_oom_failed_unchanged=%llu "
+	    "map_oom_delete_took_effect=%llu map_oom_init_null_no_leak=%llu\n",
 	    (unsigned long long)(sig ^ style),
 	    (c_multitrim >= 1 && c_delunk >= 1 && c_deldead >= 1), nops,
 	    (unsigned long long)c_add, (unsigned long long)c_delmin,
 	    (unsigned long long)c_delmid, (unsigned long long)c_deldead,
 	    (unsigned long long)c_delunk, (unsigned long long)c_multitrim,
-	    (unsigned long long)c_getchk, maxlive);
+	    (unsigned long long)c_getchk, maxlive,
+	    (unsigned long long)ic_refused, (unsigned long long)ic_failed,
+	    (unsigned long long)ic_absorbed, (unsigned long long)ic_initfail);
 }
 
 /* ================================================================== */
